@@ -12,6 +12,8 @@
     jump <seal>                                        -> ok             (load of a header-only stream)
     pnew <n> (<d0> <d1> <class>)*n <m> (<keyidx> <fitclass>)*m          -> pnew
     peval <id> | pdata <d> | pclr | preload            -> p <len> <w>*len calls=<k> | ok | ok | reload 1|0
+    pevalv <id>                                        -> v <d>   (the data version the answer was computed on)
+    cs <site> <arg> <gap> <k>                          -> ok      (validation-strategy step, see `Site`; k = data after it)
 -/
 import Vita.C04.Model
 open Vita.C04
@@ -107,6 +109,31 @@ def step (st : St) (line : String) : St × String :=
           let r := proxyEval sig ev st.ps id
           ({ st with ps := r.2 }, showFit "p" r.1 ++ " calls=" ++ toString r.2.calls)
         else (st, "bad-op")
+      | "pevalv", [id] =>
+        -- version mode: the fitness is the data version it was computed on (call-site scenarios)
+        if id < st.sigIdx.size then
+          let sig : Nat → Key := fun i => st.pool.getD (st.sigIdx.getD i 0) Key.zero
+          let ev : Nat → Nat → Fit := fun d _ => [UInt64.ofNat (d + 1)]
+          let r := proxyEval sig ev st.ps id
+          match r.1 with
+          | [w] => ({ st with ps := r.2 }, "v " ++ toString (w.toNat - 1))
+          | _ => ({ st with ps := r.2 }, "v none")
+        else (st, "bad-op")
+      | "cs", [site, arg, gap, k] =>
+        -- a validation-strategy step as modelled in `Site`; k = the data version observed afterwards
+        let s? : Option Site := match site with
+          | 0 => some (.dssInit arg) | 1 => some (.dssShake gap arg) | 2 => some (.dssClose arg)
+          | 3 => some (.holdoutInit arg) | 4 => some (.holdoutShake arg) | 5 => some (.holdoutClose arg)
+          | _ => none
+        match s? with
+        | none => (st, "bad-op")
+        | some s =>
+          if !s.changes && k != st.ps.data then (st, "REJECT data-changed-where-the-model-says-it-does-not")
+          else
+            let sig : Nat → Key := fun i => st.pool.getD (st.sigIdx.getD i 0) Key.zero
+            let ev : Nat → Nat → Fit := fun d _ => [UInt64.ofNat (d + 1)]
+            let ps' := ((CEv.site s k : CEv Nat Nat).expand).foldl (fun p e => (pstep sig ev p e).2) st.ps
+            ({ st with ps := ps' }, "ok")
       | "pdata", [d] => ({ st with ps := { st.ps with data := d } }, "ok")
       | "pclr", [] => ({ st with ps := { st.ps with cache := st.ps.cache.clear } }, "ok")
       | "preload", [] =>
